@@ -2,6 +2,7 @@
 //!
 //!   fvharness steer --in behaviours.jsonl --out trace.ndjson [--cancelable] [--ring K] [--queue Q] [--stack S] [--seed N]
 
+mod adapters;
 mod ops;
 mod rt;
 mod steer;
@@ -36,6 +37,7 @@ fn main() {
             let opts = steer::Opts {
                 cancelable: kv.contains_key("cancelable"),
                 ready: !kv.contains_key("not-ready"),
+                disabled: kv.contains_key("disabled"),
                 ring: num("ring", 0) as usize,
                 queue: num("queue", 0) as usize,
                 stack: num("stack", 0) as usize,
